@@ -77,18 +77,19 @@ def run(A, rep, tier):
     rep.check(isinstance(suffix, str) and suffix[:1] not in alpha and suffix != "", "RX2", "suffix starts outside the alphabet", None,
               "TASK_OUTPUT_DIR_SUFFIX=%r" % (suffix,), "TASK_OUTPUT_DIR_SUFFIX %r does not start with a character outside the name alphabet" % (suffix,))
     tod = A.fn("filename.task_output_dir")
-    rets = [x for x in walk_local(tod.node) if isinstance(x, ast.Return)]
-    texts = sorted(norm(x.value) for x in rets)
-    p0, p1 = tod.params[0], tod.params[1]
-    ok = texts == sorted(["%s.name + TASK_OUTPUT_DIR_SUFFIX" % p0, "'{}{}.{}'.format(%s.name, TASK_OUTPUT_DIR_SUFFIX, str(%s))" % (p0, p1)])
+    from ..analysis import strparts
     g = A.cfg(tod, "plain")
-    if ok:
-        for x in rets:
-            gs = A.path_guards(g, g.entry, g.node_of(x), tod)
-            want = ("none(%s)" % p1, "format" not in norm(x.value))
-            ok = ok and gs == [frozenset({want})]
-    rep.check(ok, "RX2", "directory name = name + suffix [+ '.' + version]", tod.node, "the version suffix is '.' + str(version), added iff a version is given",
-              "task_output_dir returns %s" % texts)
+    p0, p1 = tod.params[0], tod.params[1]
+    rets = [n for n in g.nodes if n.kind == "stmt" and isinstance(n.ast, ast.Return)]
+    forms = {}
+    for n in rets:
+        parts = strparts(A.expand(n.ast.value, tod))
+        gs = A.path_guards(g, g.entry, n, tod)
+        forms[tuple(parts) if parts is not None else ("?",)] = sorted(sorted(c) for c in gs)
+    want = {("%s.name" % p0, "TASK_OUTPUT_DIR_SUFFIX"): [[("none(%s)" % p1, True)]],
+            ("%s.name" % p0, "TASK_OUTPUT_DIR_SUFFIX", "'.'", "str(%s)" % p1): [[("none(%s)" % p1, False)]]}
+    rep.check(forms == want, "RX2", "directory name = name + suffix [+ '.' + version]", tod.node, "the version suffix is '.' + str(version), added iff a version is given",
+              "task_output_dir builds %s" % forms)
     vs = A.fn("execution.version_index.Version.__str__")
     r = [x for x in walk_local(vs.node) if isinstance(x, ast.Return)]
     rep.check(len(r) == 1 and norm(r[0].value) == "str(self._timestamp)", "RX2", "str(version) is the timestamp", vs.node, "", "Version.__str__ is not str(timestamp)")
